@@ -116,6 +116,22 @@ def run(ck):
             seqs.append(w)
         if rng.chance(1, 3): seqs.append(D)
         dlines.append('dmat ' + ' '.join(gen.hexs(x) for x in seqs))
+    # pairs that agree in every cheap fingerprint - length, composition, and the position-weighted GCG checksum msa_check.c computes
+    # (weights repeat every 57 positions) - but differ: residues swapped 57 (or 114) positions apart
+    for k in range(12 if quick else 80):
+        alpha = rng.choice(['ACGT', 'ACDEFGHIKLMNPQRSTVWY'])
+        L = rng.choice([120, 150, 200, 300])
+        D = gen.rand_seq(rng, alpha, L)
+        fam = [D]
+        for _ in range(rng.range(2, 3)):
+            x = list(D)
+            for _ in range(rng.range(1, 3)):
+                i = rng.below(L - 114); j = i + rng.choice([57, 114])
+                if x[i] != x[j]: x[i], x[j] = x[j], x[i]
+            if ''.join(x) != D: fam.append(''.join(x))
+        fam.append(D)
+        dlines.append('dmat ' + ' '.join(gen.hexs(x) for x in fam))
+        ck.count('distance matrix: same length, composition and GCG checksum, different sequences')
     # large distances: unrelated sequences (several hundred edits; the distance is an int, not a byte)
     for k in range(6 if quick else 40):
         la = rng.choice([300, 520, 700, 1000]); lb = rng.choice([260, 300, 520, 900])
